@@ -455,6 +455,7 @@ func main() {
 	}
 	confirmed := map[string]*candidate{}
 	unconfirmed := map[string]string{}
+	maskedBy := map[string]string{}
 	replays := 0
 	cosimOK, cosimBad := 0, 0
 	if !*noReplay {
@@ -511,6 +512,9 @@ func main() {
 					delete(unconfirmed, c.v.Key)
 				} else {
 					unconfirmed[c.v.Key] = res.result
+					if strings.HasPrefix(res.result, "check-failed ") {
+						maskedBy[c.v.Key] = c.harness + "/check/" + strings.TrimPrefix(res.result, "check-failed ")
+					}
 				}
 			}
 		}
@@ -520,7 +524,12 @@ func main() {
 			confirmed[k] = &c
 		}
 	}
+	var masked []string
 	for k, r := range unconfirmed {
+		if mb, ok := maskedBy[k]; ok && confirmed[mb] != nil {
+			masked = append(masked, fmt.Sprintf("%s (candidate masked natively by the confirmed failure of %s)", k, mb))
+			continue
+		}
 		if confirmed[k] == nil {
 			incon = append(incon, fmt.Sprintf("UNCONFIRMED counterexample for %s: native replay gave %q (encoding or stub fault; not reported as violation)", k, r))
 		}
@@ -639,6 +648,7 @@ func main() {
 		"unwind_hits":                   unwindHits,
 		"inconclusive":                  dedup(incon),
 		"known_findings":                knownLines,
+		"masked_candidates":             masked,
 		"cosimulation":                  map[string]int{"witness_paths_replayed_ok": cosimOK, "mismatch": cosimBad},
 		"package_load_s":                ld.LoadDur.Seconds(),
 		"exhaustive":                    false,
@@ -885,7 +895,7 @@ func reproduces(v symx.Violation, r replayOut) bool {
 	case "unwind":
 		return r.result == "timeout" || strings.HasPrefix(r.result, "panic ")
 	case "alloc":
-		return r.alloc > 1<<20
+		return v.Bytes > 0 && r.alloc >= int64(v.Bytes)
 	}
 	return false
 }
